@@ -408,21 +408,27 @@ impl<'a> Gen<'a> {
     }
 
     /// A buildable glob for walking; returns the expression and whether it is rooted.
-    /// `dots`: number of leading `..` allowed (depth of base), `allow_rooted`.
+    /// `dots`: 0 = no dot prefix, 1 = `../` runs only, 2 = `./` and `../` runs.
     pub fn walk_glob(
         &mut self,
         model: &Model,
         base: &str,
-        allow_dot: bool,
+        dots: u8,
         allow_rooted: bool,
         rejections: &mut usize,
     ) -> (String, bool) {
         for _ in 0..12 {
-            let kind = self.rng.weighted(&[78, if allow_dot { 11 } else { 0 }, if allow_rooted { 11 } else { 0 }]);
+            let kind = self.rng.weighted(&[78, if dots > 0 { 11 } else { 0 }, if allow_rooted { 11 } else { 0 }]);
             let (expr, rooted) = match kind {
                 1 => {
                     // dot prefix: `./`, `../`, `../../` (staying inside the world)
-                    let up = self.rng.range(0, depth_of(base).min(2));
+                    // dots == 1: only `..` runs (a `./` prefix makes the underlying walk yield
+                    // nothing, known finding F4b, which leaves stacked filters nothing to do)
+                    let lo = if dots == 1 { 1 } else { 0 };
+                    if depth_of(base) < lo {
+                        continue;
+                    }
+                    let up = self.rng.range(lo, depth_of(base).min(2));
                     let mut start = base.to_string();
                     let mut run: Vec<&str> = Vec::new();
                     if up == 0 {
